@@ -3624,9 +3624,11 @@ class Assemble(Array):
         assert i == self.func.ndim
         assert len(trans) == advanced_ndim
         compiled_func = builder.compile(self.func)
-        if advanced_ndim > 1 and trans[-1] - trans[0] != advanced_ndim - 1: # trans is noncontiguous
+        advanced = [k for k, index in enumerate(self.indices) if not isinstance(index, Range)]
+        if len(advanced) > 1 and advanced[-1] - advanced[0] != len(advanced) - 1: # advanced indices (including scalars) are separated by a slice
             # see https://numpy.org/doc/stable/user/basics.indexing.html#combining-advanced-and-basic-indexing
-            trans.extend(i for i, index in enumerate(self.indices) if isinstance(index, Range))
+            offsets = util.cumsum(index.ndim for index in self.indices)
+            trans.extend(offset for offset, index in zip(offsets, self.indices) if isinstance(index, Range))
             compiled_func = compiled_func.get_attr('transpose').call(*[_pyast.LiteralInt(i) for i in trans])
         builder.get_block_for_evaluable(self).array_add_at(out, _pyast.Tuple(tuple(compiled_indices)), compiled_func)
 
